@@ -17,26 +17,214 @@ mutual
         Covered v rules rest → Covered v rules (i :: rest)
 end
 
+theorem applyAclDiff_nil (v : Acl.Vendor) (rules : Acl.Rules) : applyAclDiff v rules [] = .ok [] := by
+  rw [applyAclDiff]
+
+/-- inversion of one step of `applyAclDiff` -/
+theorem applyAclDiff_cons_ok {v : Acl.Vendor} {rules : Acl.Rules} {i : DItem} {rest d' : List DItem}
+    (h : applyAclDiff v rules (i :: rest) = .ok d') :
+    ∃ oi r, aclDiffItem v rules i = .ok oi ∧ applyAclDiff v rules rest = .ok r ∧
+      d' = (match oi with | none => r | some i' => i' :: r) := by
+  rw [applyAclDiff] at h
+  split at h
+  · cases h
+  · cases h
+  · next r h1 h2 => cases h; exact ⟨none, _, h1, h2, rfl⟩
+  · next i' r h1 h2 => cases h; exact ⟨some i', _, h1, h2, rfl⟩
+
+/-- inversion of `aclDiffItem` -/
+theorem aclDiffItem_ok {v : Acl.Vendor} {rules : Acl.Rules} {op : Op} {row : String} {ch : List DItem}
+    {m : Rules.PMatch} {i' : DItem} (h : aclDiffItem v rules (.mk op row ch m) = .ok (some i')) :
+    ∃ am cr ch', Acl.matchRowToAcl v row rules false = .ok (some (am, cr)) ∧
+      applyAclDiff v cr ch = .ok ch' ∧
+      i' = .mk (if op == .removed && am.rule.cantDelete.all id then .affected else op) row ch' m := by
+  rw [aclDiffItem] at h
+  split at h
+  · cases h
+  · cases h
+  · next am cr hm =>
+    split at h
+    · cases h
+    · next ch' hc =>
+      cases h
+      exact ⟨am, cr, ch', hm, hc, rfl⟩
+
+mutual
+  theorem covered_list (v : Acl.Vendor) : ∀ (d : List DItem) (rules : Acl.Rules) (d' : List DItem),
+      applyAclDiff v rules d = .ok d' → Covered v rules d'
+    | [], rules, d', h => by
+      rw [applyAclDiff_nil] at h; cases h; exact .nil rules
+    | i :: rest, rules, d', h => by
+      obtain ⟨oi, r, h1, h2, rfl⟩ := applyAclDiff_cons_ok h
+      have ihr := covered_list v rest rules r h2
+      cases oi with
+      | none => exact ihr
+      | some i' =>
+        obtain ⟨am, cr, hm, hc, hop⟩ := covered_item v i rules i' h1
+        exact .cons hm hc hop ihr
+  theorem covered_item (v : Acl.Vendor) : ∀ (i : DItem) (rules : Acl.Rules) (i' : DItem),
+      aclDiffItem v rules i = .ok (some i') →
+      ∃ am cr, Acl.matchRowToAcl v i'.row rules false = .ok (some (am, cr)) ∧ Covered v cr i'.children ∧
+        (i'.op = .removed → am.rule.cantDelete.all id = false)
+    | .mk op row ch m, rules, i', h => by
+      obtain ⟨am, cr, ch', hm, hc, rfl⟩ := aclDiffItem_ok h
+      refine ⟨am, cr, hm, covered_list v ch cr ch' hc, ?_⟩
+      simp only [DItem.op]
+      intro ho
+      cases hcd : am.rule.cantDelete.all id with
+      | false => rfl
+      | true =>
+        rw [hcd] at ho
+        cases op <;> simp at ho
+end
+
 theorem acl_diff_covered (v : Acl.Vendor) (rules : Acl.Rules) (d d' : List DItem)
-    (h : applyAclDiff v rules d = .ok d') : Covered v rules d' := by
-  sorry
+    (h : applyAclDiff v rules d = .ok d') : Covered v rules d' :=
+  covered_list v d rules d' h
+
+/-- what `aclDiffItem` does to the row and the op of an entry it keeps -/
+theorem aclDiffItem_row_op {v : Acl.Vendor} {rules : Acl.Rules} {i i' : DItem}
+    (h : aclDiffItem v rules i = .ok (some i')) :
+    i.row = i'.row ∧ (i'.op = i.op ∨ (i.op = .removed ∧ i'.op = .affected)) := by
+  obtain ⟨op, row, ch, m⟩ := i
+  obtain ⟨am, cr, ch', _, _, rfl⟩ := aclDiffItem_ok h
+  refine ⟨rfl, ?_⟩
+  simp only [DItem.op]
+  split
+  · next hc =>
+    rw [Bool.and_eq_true, beq_iff_eq] at hc
+    exact .inr ⟨hc.1, rfl⟩
+  · exact .inl rfl
 
 theorem acl_diff_rows_sublist (v : Acl.Vendor) (rules : Acl.Rules) (d d' : List DItem)
     (h : applyAclDiff v rules d = .ok d') : List.Sublist (d'.map (·.row)) (d.map (·.row)) := by
-  sorry
+  induction d generalizing d' with
+  | nil => rw [applyAclDiff_nil] at h; cases h; exact .slnil
+  | cons i rest ih =>
+    obtain ⟨oi, r, h1, h2, rfl⟩ := applyAclDiff_cons_ok h
+    cases oi with
+    | none => exact (ih r h2).cons _
+    | some i' =>
+      simp only [List.map_cons]
+      rw [(aclDiffItem_row_op h1).1]
+      exact (ih r h2).cons_cons _
 
 theorem acl_diff_ops (v : Acl.Vendor) (rules : Acl.Rules) (d d' : List DItem)
     (h : applyAclDiff v rules d = .ok d') (i' : DItem) (hi : i' ∈ d') :
     ∃ i ∈ d, i.row = i'.row ∧ (i'.op = i.op ∨ (i.op = .removed ∧ i'.op = .affected)) := by
-  sorry
+  induction d generalizing d' with
+  | nil => rw [applyAclDiff_nil] at h; cases h; cases hi
+  | cons i rest ih =>
+    obtain ⟨oi, r, h1, h2, rfl⟩ := applyAclDiff_cons_ok h
+    cases oi with
+    | none =>
+      obtain ⟨j, hj, hr⟩ := ih r h2 hi
+      exact ⟨j, List.mem_cons_of_mem _ hj, hr⟩
+    | some i'' =>
+      rcases List.mem_cons.1 hi with rfl | hi
+      · exact ⟨i, List.mem_cons_self .., aclDiffItem_row_op h1⟩
+      · obtain ⟨j, hj, hr⟩ := ih r h2 hi
+        exact ⟨j, List.mem_cons_of_mem _ hj, hr⟩
+
+/-- `logicDefault` with empty REMOVED bucket only yields direct commands -/
+theorem logicDefault_direct (pv : Rules.Vendor) (attrs : Rules.PAttrs) (key : List String)
+    (a m f u : List Patch.PreEntry) (ys : List Patch.Yield)
+    (h : Patch.logicDefault pv attrs (.mk key a [] m f u) = .ok ys) : ∀ y ∈ ys, y.direct = true := by
+  unfold Patch.logicDefault at h
+  simp only at h
+  split at h
+  · cases h
+  · split at h
+    · cases h; simp
+    · cases h; simp
+    · cases h; simp
+    · contradiction
+    · cases h; simp
 
 /-- none of the common logic functions emits a removal (`direct = false`) unless the REMOVED or MOVED bucket
 of the (rule, key) is non-empty -/
 theorem no_removal_without_removed_bucket (pv : Rules.Vendor) (attrs : Rules.PAttrs) (key : List String)
     (a f u : List Patch.PreEntry) (ys : List Patch.Yield)
     (h : Patch.runLogic pv attrs (.mk key a [] [] f u) = .ok ys) : ∀ y ∈ ys, y.direct = true := by
-  sorry
+  unfold Patch.runLogic at h
+  split at h
+  · exact logicDefault_direct pv attrs key a [] f u ys h
+  split at h
+  · unfold Patch.logicOrdered at h
+    simp only [List.isEmpty_nil, if_true] at h
+    split at h
+    · cases h
+    · cases h
+    · next x y hx hy =>
+      cases hx; cases h
+      simpa using logicDefault_direct pv attrs key a [] f u y hy
+  split at h
+  · unfold Patch.logicRewrite at h
+    simp only [List.isEmpty_nil, if_true] at h
+    exact logicDefault_direct pv attrs key a [] f u ys h
+  split at h
+  · unfold Patch.logicPermanent at h
+    simp only at h
+    exact logicDefault_direct pv attrs key a [] f u ys h
+  split at h
+  · unfold Patch.logicIgnoreChanges at h
+    simp only [List.isEmpty_nil, Bool.not_true, Bool.and_false, Bool.false_eq_true, if_false] at h
+    exact logicDefault_direct pv attrs key a [] f u ys h
+  split at h
+  · unfold Patch.logicUndoRedo at h
+    simp only [List.isEmpty_nil, Bool.not_true, Bool.and_false, Bool.false_and, Bool.not_false, if_true] at h
+    exact logicDefault_direct pv attrs key a [] f u ys h
+  · cases h
 
+open Annet.Rules Annet.Device Annet.Device.Abs in
+/-- `Device.Lemmas.leaf_preserves_others` without its (unused) well-formedness hypothesis -/
+theorem leaf_preserves_others' (env : Env) (rules : PRules) (c : String) (kids : List (String × Cfg)) (s : Slot)
+    (hother : slotOf rules c ≠ some s)
+    (hother' : ∀ r', stripReverse env c = some r' → slotOf rules r' ≠ some s) :
+    (execLeaf env rules c kids).filter (fun e => slotOf rules e.1 == some s) =
+      kids.filter (fun e => slotOf rules e.1 == some s) := by
+  have filt : ∀ (m : PMatch), some (m.rawRule, m.key) ≠ some s → ∀ e : String × Cfg,
+      (slotOf rules e.1 == some s) = true → sameSlot rules m e.1 = false := by
+    intro m hm e he
+    rw [beq_iff_eq] at he
+    rw [Device.Lemmas.sameSlot_eq, he, beq_eq_false_iff_ne]
+    exact fun h => hm h.symm
+  unfold execLeaf
+  split
+  · rfl
+  · split
+    · next m heq =>
+      obtain ⟨r', hr', hm⟩ := Option.bind_eq_some_iff.1 heq
+      obtain ⟨mc, hmc, rfl⟩ := Option.map_eq_some_iff.1 hm
+      have hm' : some (mc.1.rawRule, mc.1.key) ≠ some s := by
+        have := hother' r' hr'
+        rwa [Device.Lemmas.slotOf_of_classify (m := mc.1) (cr := mc.2) hmc] at this
+      rw [List.filter_filter]
+      apply List.filter_congr
+      intro e he
+      cases hp : slotOf rules e.1 == some s with
+      | false => simp
+      | true => simp [filt mc.1 hm' e hp]
+    · split
+      · next m cr hcl =>
+        have hm' : some (m.rawRule, m.key) ≠ some s := by
+          rwa [Device.Lemmas.slotOf_of_classify hcl] at hother
+        unfold putLine
+        split
+        · rw [List.filter_filter]
+          apply List.filter_congr
+          intro e he
+          cases hp : slotOf rules e.1 == some s with
+          | false => simp
+          | true => simp [filt m hm' e hp]
+        · split
+          · exact Device.Lemmas.rf_filter_other rules m c s hother hm' false kids
+          · have hcf : (slotOf rules c == some s) = false := by
+              rw [beq_eq_false_iff_ne]; exact hother
+            simp [List.filter_append, hcf]
+      · rfl
+
+set_option linter.unusedVariables false in
 /-- commands on other slots leave the lines of a slot alone, over a whole command list -/
 theorem cmds_preserve_other_slot (env : Device.Env) (rules : Rules.PRules) (cs : List String)
     (kids : List (String × Cfg)) (s : Device.Abs.Slot) (hwf : Device.Abs.WF rules kids)
@@ -44,6 +232,12 @@ theorem cmds_preserve_other_slot (env : Device.Env) (rules : Rules.PRules) (cs :
       ∀ r', Device.stripReverse env c = some r' → Device.Abs.slotOf rules r' ≠ some s) :
     (cs.foldl (fun k c => Device.execLeaf env rules c k) kids).filter (fun e => Device.Abs.slotOf rules e.1 == some s) =
       kids.filter (fun e => Device.Abs.slotOf rules e.1 == some s) := by
-  sorry
+  clear hwf
+  induction cs generalizing kids with
+  | nil => rfl
+  | cons c cs ih =>
+    rw [List.foldl_cons, ih _ (fun c' hc' => hother c' (List.mem_cons_of_mem _ hc'))]
+    have := hother c (List.mem_cons_self ..)
+    exact leaf_preserves_others' env rules c kids s this.1 this.2
 
 end Annet.AclDiff.Lemmas
